@@ -10,6 +10,7 @@ import Mashu.Resolve
 import Mashu.Quote
 import Mashu.Discr
 import Mashu.DiscrF
+import Mashu.PackF
 import Mashu.Cache
 import Mashu.Lazy
 import Mashu.Share
@@ -490,6 +491,31 @@ def dispatch (j : Json) : Except String Json := do
   | "hooks" => dispatchHooks j
   | "namespace" | "cleanid" => dispatchNamespace op j
   | "schema" => dispatchSchema j
+  | "packf" => do
+      let nat (x : Json) : Except String Nat := match x with
+        | .num n => pure n.mantissa.toNat
+        | _ => throw "bad nat"
+      let evs ← (← arr (j.getObjValD "events")).toList.mapM (fun e => do
+        match e.getObjVal? "d" with
+        | .ok c => do
+            let a ← arr c
+            let par : Option Nat ← (match a[1]! with | .null => pure none | x => do pure (some (← nat x)))
+            pure (PackF.Event.define { id := ← nat a[0]!, parent := par, tag := none })
+        | .error _ =>
+          match e.getObjVal? "h" with
+          | .ok b => do pure (PackF.Event.compile 1 (← nat b))
+          | .error _ => do
+              let a ← arr (e.getObjValD "p")
+              pure (PackF.Event.pack 1 (← nat a[1]!)))
+      let guard := getB j "guard" Generated.packOwnerGuard
+      let ofP (o : PackF.Outcome) : Json := match o with
+        | .packedBy c o => Json.str s!"by:{c}:{o}"
+        | .noMethod => Json.str "nomethod"
+      let stateAfter (k : Nat) : PackF.State := (evs.take k).foldl (fun st e => (PackF.step guard st e).1) {}
+      let own (st : PackF.State) : Json :=
+        Json.arr (((st.compiled.filter (fun e => e.2 == 1)).map (fun e => Json.num (JsonNumber.fromNat e.1))).toArray)
+      pure (Json.mkObj [("outs", Json.arr ((PackF.run guard {} evs).map ofP).toArray),
+                        ("own", Json.arr (((List.range evs.length).map (fun k => own (stateAfter (k + 1)))).toArray))])
   | "mro" => do
       let dictOf (e : Json) : Except String Mro.Dict := do
         (← arr e).toList.mapM (fun kv => do
